@@ -306,6 +306,42 @@ def _file_literals(f):
     return out
 
 
+def _helper_literals(p, f):
+    """Calls in `f` of a synchronous module-level helper of the same module whose every exit returns a File dict literal
+    (directly or through a local bound once to it): the call stands for the literal at the call site (its `@id` is then
+    only known as `<result>["@id"]`)."""
+    out = []
+    for c in f.calls():
+        if not isinstance(c.func, ast.Name):
+            continue
+        qs = p.resolve_call(f, c, fanout=False)
+        if len(qs) != 1 or qs[0] not in p.functions:
+            continue
+        h = p.functions[qs[0]]
+        if h.cls is not None or h.module is not f.module or not isinstance(h.node, ast.FunctionDef) or h.decorators:
+            continue
+        rets = [n for n in h.body_nodes() if isinstance(n, ast.Return)]
+        if not rets:
+            continue
+        lits = _file_literals(h)
+
+        def _lit(r):
+            if r.value is None:
+                return False
+            if any(r.value is L for L in lits):
+                return True
+            if isinstance(r.value, ast.Name):
+                srcs = _id_sources(h, r.value.id)
+                whole = [x for x in srcs if x[2]]
+                return bool(whole) and all(
+                    isinstance(h.cfg.nodes[nid].ast.value, ast.Dict) and any(h.cfg.nodes[nid].ast.value is L for L in lits) for nid, _, _ in whole)
+            return False
+
+        if lits and all(_lit(r) for r in rets):
+            out.append(c)
+    return out
+
+
 def _registrars(p):
     """methods storing self.files_map[...] = <the @id of the loop variable> for each element of a parameter: {name: param index}.
     The stored value is `part["@id"]`, a local copy of it, or the expression that was just assigned to `part["@id"]`
@@ -332,7 +368,7 @@ def r2(ctx):
     regs = _registrars(p)
     seen = 0
     for f in _methods(p):
-        lits = _file_literals(f)
+        lits = _file_literals(f) + _helper_literals(p, f)
         if not lits:
             continue
         g = f.cfg
@@ -345,7 +381,7 @@ def r2(ctx):
             lid = lid[0]
             X = st.targets[0].id if isinstance(st, ast.Assign) and len(st.targets) == 1 and isinstance(st.targets[0], ast.Name) and st.value is L else None
             ids = []
-            e = _dict_get(L, "@id")
+            e = _dict_get(L, "@id") if isinstance(L, ast.Dict) else None
             if e is not None:
                 ids.append(e)
             if X:
